@@ -200,7 +200,13 @@ func overlayFor(kind string, tags []string) (string, error) {
 	}
 	dir := filepath.Join(scratch, "overlay-"+kind+"-"+strings.Join(tags, "_"))
 	os.MkdirAll(dir, 0o755)
-	args := []string{"-repo", repoDir, "-out", dir, "-mode", kind, "-tags", strings.Join(tags, ",")}
+	mode := kind
+	args := []string{"-repo", repoDir, "-out", dir, "-tags", strings.Join(tags, ",")}
+	if kind == "shim" {
+		mode = "globals"
+		args = append(args, "-shim")
+	}
+	args = append(args, "-mode", mode)
 	cmd := exec.Command(tool, args...)
 	cmd.Env = goEnv()
 	b, err := cmd.CombinedOutput()
@@ -241,6 +247,13 @@ func buildWorker(bs buildSpec) (string, error) {
 		if bs.overlay == "instr" {
 			tags = append(tags, "verif_globals")
 		}
+		if bs.overlay == "shim" {
+			tags = append(tags, "verif_globals")
+			if b, err := os.ReadFile(ov); err != nil || !strings.Contains(string(b), "zz_verif_shim.go") {
+				tags = tags[:len(tags)-2] // no shim in this tree: plain globals build
+				tags = append(tags, "verif_globals")
+			}
+		}
 	}
 	if bs.gcflags != "" {
 		args = append(args, "-gcflags", bs.gcflags)
@@ -251,10 +264,26 @@ func buildWorker(bs buildSpec) (string, error) {
 	}
 	out := filepath.Join(scratch, "vwork-"+bs.name)
 	args = append(args, "-tags", strings.Join(tags, ","), "-o", out, pkg)
+	if os.Getenv("VERIF_DEBUG") != "" {
+		fmt.Fprintln(os.Stderr, "go", strings.Join(args, " "))
+	}
 	cmd := exec.Command("go", args...)
 	cmd.Dir = harnessDir
 	cmd.Env = env
 	if b, err := cmd.CombinedOutput(); err != nil {
+		if bs.overlay == "shim" {
+			// the optional shim does not compile against this tree: fall back to the plain build
+			overlayNotes["shim"] = append(overlayNotes["shim"], "optional C01 shim does not compile against this tree; per-transition table checks not run")
+			fb := bs
+			fb.overlay = "globals"
+			buildMu.Unlock()
+			p, err2 := buildWorker(fb)
+			buildMu.Lock()
+			if err2 == nil {
+				buildCache["worker:"+bs.name] = p
+			}
+			return p, err2
+		}
 		return "", fmt.Errorf("go %s: %v\n%s", strings.Join(args, " "), err, b)
 	}
 	buildCache["worker:"+bs.name] = out
@@ -269,6 +298,7 @@ var specs = map[string]buildSpec{
 	"instr-purego": {name: "instr-purego", tags: []string{"purego"}, overlay: "instr"},
 	"instr-race":   {name: "instr-race", race: true, overlay: "instr"},
 	"plain":        {name: "plain"},
+	"shim":         {name: "shim", overlay: "shim"},
 }
 
 // ---------- running workers ----------
